@@ -20,7 +20,7 @@ CONFIG = {
     "assumptions": [
         "BeginBlock and EndBlock alternate (CometBFT's call grammar); a block-level error halts consensus and nothing of that block is committed",
         "account numbers in the model are the byte order of the real addresses (MKVS iteration order of the debonding queue, C03); operations mention only accounts below n",
-        "commission rates are constant per account in the model (AmendCommissionSchedule moves no value); consensus parameters are constant within a history; runtime-message and hook paths of withdraw are not modelled",
+        "gas is modelled (per-byte charge of the mux, per-operation charge of the handlers, out-of-gas = failed body); commission rates are constant per account in the model (AmendCommissionSchedule moves no value); consensus parameters are constant within a history; runtime-message and hook paths of withdraw are not modelled",
         "direct state movers called by other applications (SlashEscrow, TransferFromCommon, AddRewards, governance deposit moves) are driven directly; their callers (roothash, scheduler, governance) are covered by C10/C11/C14",
     ],
     "explanation": "Theorems for all histories of the ledger model; real staking application vs model on generated block histories (all transaction kinds valid and invalid, fees, vote participation, evidence, epoch transitions, rewards, slashing, governance deposits), invariant and supply rule evaluated on every dumped real state, the repository's own sanity helpers run as a second opinion.",
